@@ -1,6 +1,7 @@
-\* C17, the writer statement order the code has (write_to_disk.clear() then write_finished.set()).
-\* EXPECTED: TLC reports FilesComplete violated (22 states: the stale write_finished.set() lets stop() restage over a
-\* staged-but-unwritten buffer).  149 945 distinct states / 2 s with DataLogger_swapped.cfg, which passes.
+\* C17, the writer statement order of the ORIGINAL code (write_to_disk.clear() then write_finished.set()).
+\* EXPECTED: TLC reports FilesComplete violated (depth 23: the stale write_finished.set() lets stop() restage over a
+\* staged-but-unwritten buffer).  DataLogger_swapped.cfg (first repair) passes with one recording; DataLogger_restart.cfg
+\* (two recordings) needs WriterOrder = "handoff", the handshake the code has now.
 SPECIFICATION Spec
 CONSTANTS
   DS = {"d1", "d2"}
@@ -9,6 +10,8 @@ CONSTANTS
   MaxNone = 1
   MaxTicks = 2
   MaxPause = 1
+  MaxRec = 1
+  EaccReset = FALSE
   Dts = {16}
   WriterOrder = "clear_then_set"
   I1 = 30
